@@ -7,7 +7,7 @@ include!("/verif/harness/common.rs");
 // ---- contract: FieldPos::build(msg_buf, field) -----------------------------------------------------------------
 // requires field is a sub-slice msg_buf[a..b] (what QuickFields::new passes: header fields borrow from the message)
 // ensures  Some(pos) with pos.start = a, pos.end = b   (so a later read addresses exactly the same bytes, in bounds)
-// @unit C12.field_pos.build props=C12 kind=bounded bound=buffer<=8 fn=zbus::message::fields::FieldPos::build timeout=600
+// @unit C12.field_pos.build props=C12 kind=bounded bound=buffer<=8 fn=zbus::message::fields::FieldPos::build timeout=1200
 #[cfg(not(verif_skip_c12_field_pos_build__n8))]
 #[cfg(kani)]
 #[kani::proof]
@@ -35,7 +35,7 @@ fn c12_field_pos_build__n8() {
 }
 
 // a field that does NOT live in the message buffer must never yield a position that reads out of bounds
-// @unit C12.field_pos.build_foreign props=C12 kind=bounded bound=buffer<=8 fn=zbus::message::fields::FieldPos::build timeout=600
+// @unit C12.field_pos.build_foreign props=C12 kind=bounded bound=buffer<=8 fn=zbus::message::fields::FieldPos::build timeout=1200
 #[cfg(not(verif_skip_c12_field_pos_build_foreign__n8))]
 #[cfg(kani)]
 #[kani::proof]
@@ -60,7 +60,7 @@ fn c12_field_pos_build_foreign__n8() {
 // ---- contract: FieldPos::read on a position produced by build ON THE SAME BUFFER --------------------------------
 // ensures  no panic (slice in bounds, bytes are the same valid UTF-8) ; Some(s) with s = the original field ;
 //          the "not present" encodings read as None
-// @unit C12.field_pos.read props=C12 kind=bounded bound=buffer<=8 fn=zbus::message::fields::FieldPos::read,zbus::message::fields::FieldPos::new_not_present timeout=900
+// @unit C12.field_pos.read props=C12 kind=bounded bound=buffer<=8 fn=zbus::message::fields::FieldPos::read,zbus::message::fields::FieldPos::new_not_present timeout=1800
 #[cfg(not(verif_skip_c12_field_pos_read__n8))]
 #[cfg(kani)]
 #[kani::proof]
